@@ -209,6 +209,25 @@ void editDoc(std::string &doc, Src &src)
     }
 }
 
+// A valid-looking document in which n variables each have two resets of the same order: the validator reports one issue
+// per variable (and the order in which it does so must not depend on anything but the document).
+std::string duplicateResetOrdersDoc(size_t n)
+{
+    std::string d = "<?xml version=\"1.0\" encoding=\"UTF-8\"?>\n<model xmlns=\"http://www.cellml.org/cellml/2.0#\" name=\"duplicate_reset_orders\">\n <component name=\"c\">\n";
+    const char *names[] = {"a", "b", "p", "q", "r", "s"};
+    n = std::min<size_t>(n, sizeof names / sizeof names[0]);
+    for (size_t i = 0; i < n; ++i) {
+        d += std::string("  <variable name=\"") + names[i] + "\" units=\"dimensionless\" initial_value=\"0\"/>\n";
+    }
+    for (size_t i = 0; i < n; ++i) {
+        for (int k = 0; k < 2; ++k) {
+            d += std::string("  <reset variable=\"") + names[i] + "\" test_variable=\"" + names[i] + "\" order=\"1\">\n   <test_value>\n    <math xmlns=\"http://www.w3.org/1998/Math/MathML\" xmlns:cellml=\"http://www.cellml.org/cellml/2.0#\">\n     <cn cellml:units=\"dimensionless\">1</cn>\n    </math>\n   </test_value>\n"
+                             "   <reset_value>\n    <math xmlns=\"http://www.w3.org/1998/Math/MathML\" xmlns:cellml=\"http://www.cellml.org/cellml/2.0#\">\n     <cn cellml:units=\"dimensionless\">0</cn>\n    </math>\n   </reset_value>\n  </reset>\n";
+        }
+    }
+    return d + " </component>\n</model>\n";
+}
+
 std::string garbageDoc(Src &src)
 {
     static const std::vector<std::string> fixed = {
@@ -309,7 +328,7 @@ Svc pickSvc(Src &src)
 
 bool docKindIssueProne(unsigned k)
 {
-    return k == 2 || k == 3;
+    return k == 2 || k == 3 || k == 5;
 }
 bool modelKindIssueProne(unsigned k)
 {
@@ -327,9 +346,9 @@ CaseData generate(Src &src)
     PoolPlan pp;
     const size_t nDocs = 1 + src.below(3), nModels = 1 + src.below(3);
     pp.forest = src.flip(50);
-    // document kinds: 0 analysable model as 2.0 text, 1 generic valid 2.0, 2 almost valid, 3 garbage, 4 CellML 1.x, 5 forest root as text
+    // document kinds: 0 analysable model as 2.0 text, 1 generic valid 2.0, 2 almost valid, 3 garbage, 4 CellML 1.x, 5 several issues of one kind, 6 forest root as text
     for (size_t i = 0; i < nDocs; ++i) {
-        pp.docKinds.push_back(static_cast<unsigned>(src.below(pp.forest ? 6 : 5)));
+        pp.docKinds.push_back(static_cast<unsigned>(src.below(pp.forest ? 7 : 6)));
     }
     // model kinds: 0 analysable, 1 generic valid, 2 broken (fails validation), 3 forest root
     for (size_t i = 0; i < nModels; ++i) {
@@ -421,7 +440,7 @@ CaseData generate(Src &src)
                         return pp.modelKinds[idx] == 3 || pp.modelKinds[idx] == 1;
                     }
                     const Op &o = cd.ops[idx];
-                    return o.svc == PARSE && o.refKind == 0 && (pp.docKinds[static_cast<size_t>(o.ref)] == 5 || pp.docKinds[static_cast<size_t>(o.ref)] == 1);
+                    return o.svc == PARSE && o.refKind == 0 && (pp.docKinds[static_cast<size_t>(o.ref)] == 6 || pp.docKinds[static_cast<size_t>(o.ref)] == 1);
                 });
             } else if (isResetPartner) {
                 cands = modelCandidates(i, [&](bool pool, size_t idx) { return pool && modelKindIssueProne(pp.modelKinds[idx]); });
@@ -431,7 +450,7 @@ CaseData generate(Src &src)
                         return pp.modelKinds[idx] == 0 || pp.modelKinds[idx] == 2;
                     }
                     const Op &o = cd.ops[idx];
-                    return o.svc == FLATTEN || (o.svc == PARSE && o.refKind == 0 && pp.docKinds[static_cast<size_t>(o.ref)] == 0);
+                    return o.svc == FLATTEN || (o.svc == PARSE && o.refKind == 0 && (pp.docKinds[static_cast<size_t>(o.ref)] == 0 || pp.docKinds[static_cast<size_t>(o.ref)] == 5));
                 });
             }
             if (cands.empty()) {
@@ -460,8 +479,8 @@ CaseData generate(Src &src)
             if (op.svc == PRINT) {
                 op.autoIds = src.flip(30);
             }
-            if (op.svc == ANALYSE && src.flip(30)) {
-                size_t n = 1 + src.below(2);
+            if (op.svc == ANALYSE && src.flip(35)) {
+                size_t n = 1 + src.below(3);
                 for (size_t k = 0; k < n; ++k) {
                     op.ext.push_back(static_cast<unsigned>(src.below(64)));
                 }
@@ -598,6 +617,12 @@ CaseData generate(Src &src)
             d.imports = !s.imports.empty();
             break;
         }
+        case 5:
+            d.kind = "several issues of one kind";
+            d.text = duplicateResetOrdersDoc(2 + src.below(5));
+            d.math = true;
+            d.issueProne = true;
+            break;
         default:
             d.kind = "forest root 2.0";
             d.text = writeXml(rootSpec, xo);
@@ -889,8 +914,31 @@ struct Exec
         return g->interfaceCode() + "\n/* ---- implementation ---- */\n" + g->implementationCode();
     }
 
-    static std::string codeFromNewGenerator(const AnalyserModelPtr &am)
+    // Known crash outside this property (reported in notes/C12.md): the Generator calls units()->name() on every variable of
+    // the AnalyserModel; a placeholder variable of an imported component has no units, is accepted by the Validator, and - made
+    // an external variable - ends up in a valid AnalyserModel. Such models are not handed to a Generator (counted).
+    static bool generatable(const AnalyserModelPtr &am)
     {
+        if (am == nullptr) {
+            return true;
+        }
+        auto ok = [](const AnalyserVariablePtr &v) { return v == nullptr || v->variable() == nullptr || v->variable()->units() != nullptr; };
+        bool all = ok(am->voi());
+        for (size_t i = 0; all && i < am->stateCount(); ++i) {
+            all = ok(am->state(i));
+        }
+        for (size_t i = 0; all && i < am->variableCount(); ++i) {
+            all = ok(am->variable(i));
+        }
+        return all;
+    }
+
+    std::string codeFromNewGenerator(const AnalyserModelPtr &am)
+    {
+        if (!generatable(am)) {
+            info["excluded-generator-unitless-variable"] = "1";
+            return "<not generated: a variable of the AnalyserModel has no units>";
+        }
         auto g = Generator::create();
         g->setModel(am);
         return generateCode(g, false);
@@ -1019,8 +1067,15 @@ struct Exec
             }
             GeneratorPtr g = fresh ? Generator::create() : (generator != nullptr ? generator : (generator = Generator::create()));
             g->setProfile(GeneratorProfile::create(op.python ? GeneratorProfile::Profile::PYTHON : GeneratorProfile::Profile::C));
-            g->setModel(am);
-            std::string text = generateCode(g, op.python);
+            std::string text;
+            if (generatable(am)) {
+                g->setModel(am);
+                text = generateCode(g, op.python);
+            } else {
+                info["excluded-generator-unitless-variable"] = "1";
+                text = "<not generated: a variable of the AnalyserModel has no units>";
+                g = nullptr;
+            }
             std::string after = dumpAnalyserModel(am);
             if (after != before) {
                 fail("C12.input-modified|Generator", firstDiff(before, after));
@@ -1028,7 +1083,7 @@ struct Exec
             rec(run, i, "arg", snapText(before));
             rec(run, i, "text", snapText(text));
             out.text = text;
-            if (!fresh && run != "H2") {
+            if (!fresh && run != "H2" && g != nullptr) {
                 sharedGeneratorPython = op.python;
                 sharedGeneratorLast = text;
                 sharedGeneratorOp = i;
@@ -1404,6 +1459,24 @@ struct Judge
                 return false;
             }
             std::string loc;
+            {
+                // the same lines in another order?
+                const std::string *xa = get(sa, ra, op, part, 'r'), *xb = get(sb, rb, op, part, 'r');
+                auto lines = [](const std::string &t) {
+                    std::vector<std::string> v;
+                    size_t p0 = 0;
+                    while (p0 < t.size()) {
+                        size_t e = t.find('\n', p0);
+                        v.push_back(t.substr(p0, e == std::string::npos ? e : e - p0));
+                        p0 = e == std::string::npos ? t.size() : e + 1;
+                    }
+                    std::sort(v.begin(), v.end());
+                    return v;
+                };
+                if (xa != nullptr && xb != nullptr && xa->size() == xb->size() && lines(*xa) == lines(*xb)) {
+                    loc = "|order-only";
+                }
+            }
             if (part == "Analyser::model()" && (sa.info.count("am-not-replaced:" + ra + ":" + std::to_string(op)) != 0 || sb.info.count("am-not-replaced:" + rb + ":" + std::to_string(op)) != 0)) {
                 loc = "|not-replaced";
             }
@@ -1483,9 +1556,22 @@ struct RecSrc: Src
     }
     bool exhausted() const override { return inner.exhausted(); }
 protected:
+    // A case needs 300-600 choices, i.e. rapidcheck sizes far above its nominal 100, where a large share of the generated
+    // integers are degenerate (0xffffffff, 0x7fffffff, ...): the tape decoder maps each of those to ONE residue per radix, so
+    // that e.g. half of all probes were annotator lookups. The 32-bit value of the tape entry is therefore mixed once more
+    // together with its position; 0 stays 0 (the simplest choice, what shrinking and reads past the end produce), the choice
+    // is still a pure function of the tape, and equal degenerate entries at different positions give different choices.
     uint64_t raw(uint64_t n) override
     {
-        uint64_t v = inner.below(n);
+        uint64_t r = inner.below(1ULL << 32);
+        uint64_t v = 0;
+        if (r != 0) {
+            uint64_t z = r + 0x9E3779B97F4A7C15ULL * (choices.size() + 1);
+            z = (z ^ (z >> 30)) * 0xBF58476D1CE4E5B9ULL;
+            z = (z ^ (z >> 27)) * 0x94D049BB133111EBULL;
+            z ^= z >> 31;
+            v = z % n;
+        }
         choices.push_back(v);
         return v;
     }
@@ -1515,16 +1601,16 @@ void childEntry()
     alarm(150);
     ChoiceSrc src;
     {
-        std::string in;
-        char buf[8192];
+        // The heap must evolve identically in every child of a case: read the choices into static storage (how many read()
+        // calls it takes depends on timing) and allocate once.
+        static uint64_t store[1 << 16];
+        char *raw = reinterpret_cast<char *>(store);
+        size_t got = 0;
         ssize_t n;
-        while ((n = read(0, buf, sizeof buf)) > 0) {
-            in.append(buf, static_cast<size_t>(n));
+        while (got < sizeof store && (n = read(0, raw + got, sizeof store - got)) > 0) {
+            got += static_cast<size_t>(n);
         }
-        src.choices.resize(in.size() / sizeof(uint64_t));
-        if (!src.choices.empty()) {
-            memcpy(src.choices.data(), in.data(), src.choices.size() * sizeof(uint64_t));
-        }
+        src.choices.assign(store, store + got / sizeof(uint64_t));
     }
     CaseData cd = generate(src);
     ChildArg a {&cd, mode[0] == 'H'};
@@ -1744,6 +1830,9 @@ void run(Src &tapeSrc, Case &c)
         }
     }
     c.count("children", 3);
+    if (j.F.info.count("excluded-generator-unitless-variable") != 0 || j.H.info.count("excluded-generator-unitless-variable") != 0) {
+        c.count("excluded:ubsan:null-pointer-use|libcellml::Generator::GeneratorImpl::updateVariableInfoSizes(variable without units)");
+    }
     if (j.F.info.count("canon-incomplete") != 0 || j.H.info.count("canon-incomplete") != 0) {
         c.count("canon-incomplete");
     }
